@@ -217,6 +217,54 @@ func init() {
 			return strings.Join(out, ",")
 		}))
 	}
+	ops["names.tagnoext"] = func(f Fields) string {
+		return nmCanon(guard(func() string {
+			tag, err := language.Parse(string(f.Hex("t")))
+			if err != nil {
+				return "unparsable"
+			}
+			if _, ok := tag.Extension('x'); ok {
+				return "has-ext"
+			}
+			s, l, err := gtab.VerifBCP47ToOtf(tag)
+			if err != nil {
+				return "err"
+			}
+			return hx([]byte(s)) + "|" + hx([]byte(l))
+		}))
+	}
+	ops["names.tagnf"] = func(f Fields) string {
+		return nmCanon(guard(func() string {
+			tag, err := language.Parse(nmPlainTag(string(f.Hex("s")), string(f.Hex("l"))))
+			if err != nil {
+				return "unparsable"
+			}
+			s, l, err := gtab.VerifBCP47ToOtf(tag)
+			if err != nil {
+				return "err"
+			}
+			return hx([]byte(s)) + "|" + hx([]byte(l))
+		}))
+	}
+	ops["names.tagkeep"] = func(f Fields) string {
+		return nmCanon(guard(func() string {
+			tag, err := language.Parse(string(f.Hex("t")))
+			if err != nil {
+				return "unparsable"
+			}
+			s, l, err := gtab.VerifBCP47ToOtf(tag)
+			if err != nil {
+				return "err"
+			}
+			tag2, err := gtab.VerifOtfToBCP47(s, l)
+			if err != nil {
+				return "back-err"
+			}
+			rl, _, _ := tag2.Raw()
+			sc, _ := tag2.Script()
+			return hx([]byte(rl.String())) + "|" + hx([]byte(sc.String()))
+		}))
+	}
 	ops["names.tagext"] = func(f Fields) string {
 		return nmCanon(guard(func() string {
 			tag, err := gtab.VerifOtfToBCP47(string(f.Hex("s")), string(f.Hex("l")))
@@ -753,6 +801,92 @@ func nmScriptLists(c *Ctx, sk, lk []string) {
 	}
 }
 
+// nmPlainTag: the BCP 47 tag "lang-Script" (no extension) for a pair of the tables
+func nmPlainTag(script, lang string) string {
+	bl := "und"
+	if lang != "" {
+		bl = gtab.VerifLangBcp47()[lang]
+	}
+	return bl + "-" + gtab.VerifScriptBcp47()[script]
+}
+
+// nmPlainCase: a tag without -x- extension through the real bcp47ToOtf; x/text's view of the tag
+// (special Chinese tags, raw language, script) is reported to the model
+func nmPlainCase(c *Ctx, t string, class string) {
+	tag, err := language.Parse(t)
+	if err != nil {
+		c.Stat("tag_plain", "unparsable")
+		return
+	}
+	kind := 0
+	switch tag {
+	case language.Chinese:
+		kind = 1
+	case language.SimplifiedChinese:
+		kind = 2
+	case language.TraditionalChinese:
+		kind = 3
+	}
+	rl, _, _ := tag.Raw()
+	sc, _ := tag.Script()
+	c.Case(Verdict, "names.tagnoext", fmt.Sprintf("t=%s k=%d rl=%s sc=%s", hx([]byte(t)), kind, hx([]byte(rl.String())), hx([]byte(sc.String()))), true)
+	c.Stat("tag_plain", class)
+}
+
+func nmPlainTags(c *Ctx, sk, lk []string) {
+	r := c.Rng
+	scripts, langs := gtab.VerifScriptBcp47(), gtab.VerifLangBcp47()
+	pair := func(s, l string) {
+		if l != "" && strings.Contains(langs[l], "-") {
+			// value is not a bare language subtag: verdict only
+			nmPlainCase(c, langs[l], "dashed-language-value")
+			return
+		}
+		t := nmPlainTag(s, l)
+		nmPlainCase(c, t, "table-pair")
+		args := "s=" + hx([]byte(s)) + " l=" + hx([]byte(l))
+		bl := "und"
+		if l != "" {
+			bl = langs[l]
+		}
+		// the predictions below are stated for tags of which x/text reports language and script as
+		// written; x/text rewrites one tag of the tables ("pa-Zzzz" is parsed as "pa-Arab"): verdict only
+		if tag, err := language.Parse(t); err == nil {
+			rl, _, _ := tag.Raw()
+			sc, _ := tag.Script()
+			if rl.String() != bl || sc.String() != scripts[s] {
+				c.Stat("tag_plain", "xtext-rewrites-tag:"+t)
+				return
+			}
+		}
+		c.Case(Direct, "names.tagnf", args, true)
+		c.Case(Direct, "names.tagkeep", fmt.Sprintf("t=%s rl=%s sc=%s", hx([]byte(t)), hx([]byte(bl)), hx([]byte(scripts[s]))), true)
+	}
+	if c.Tier == "thorough" {
+		for _, s := range sk {
+			for _, l := range lk {
+				pair(s, l)
+			}
+		}
+	} else {
+		for _, s := range sk {
+			pair(s, "")
+			pair(s, Pick(r, lk))
+			pair(s, Pick(r, lk))
+		}
+		for _, l := range lk {
+			pair(Pick(r, sk), l)
+		}
+	}
+	// tags a user may write: regions, variants, implied scripts, the three special Chinese tags
+	for _, t := range []string{"zh", "zh-Hans", "zh-Hant", "zh-Hani", "zh-TW", "zh-CN", "zh-Hant-HK", "zh-Hans-SG",
+		"und", "und-Latn", "und-Zzzz", "de", "de-CH", "de-Latn-AT", "en-US", "pt-BR", "sr", "sr-Latn", "sr-Cyrl-RS",
+		"az-Cyrl-AZ", "el-polyton", "nl", "nl-BE", "bn", "bn-Beng-IN", "hy", "ro-MD", "ga", "iu-Cans", "ja", "ko", "he", "iw",
+		"ar-EG", "fa-Arab", "ur", "hi", "ta-Taml", "tlh", "mul"} {
+		nmPlainCase(c, t, "user-tag")
+	}
+}
+
 func nmTags(c *Ctx) {
 	r := c.Rng
 	scripts, langs := gtab.VerifScriptBcp47(), gtab.VerifLangBcp47()
@@ -796,6 +930,7 @@ func nmTags(c *Ctx) {
 		}
 	}
 	nmScriptLists(c, sk, lk)
+	nmPlainTags(c, sk, lk)
 	// tags outside the tables (verdict: both sides refuse)
 	for _, s := range []string{"dflt", "zzzz", "lao", "LATN", ""} {
 		pair(s, "DEU ")
